@@ -34,6 +34,7 @@ def _config(cfg):
     want = {}
     errs = []
     # the script
+    store.store_object("urn:node:" + PIDS[0], paths["c1"])  # listed before its suffix 'pid-1'
     store.store_object(PIDS[0], paths["c1"])
     store.store_object(PIDS[1], paths["c2"])
     store.store_object(PIDS[2], paths["c3"])
@@ -61,13 +62,13 @@ def _config(cfg):
     store.delete_metadata(PIDS[0], "b")
     del want[lay.meta_path(PIDS[0], "b")]
     # the predicted tree (independent implementation of the README layout)
-    bind = {PIDS[0]: "c1", PIDS[1]: "c2", PIDS[2]: "c3", PIDS[3]: "c1", "tagged": "c4"}
+    bind = {"urn:node:" + PIDS[0]: "c1", PIDS[0]: "c1", PIDS[1]: "c2", PIDS[2]: "c3", PIDS[3]: "c1", "tagged": "c4"}
     for fp in file_pids:
         bind[fp] = "c4"
     for pid, c in bind.items():
         want[lay.pid_ref_path(pid)] = cid[c].encode()
         want[lay.obj_path(cid[c])] = CONTENTS[c]
-    lists = {"c1": [PIDS[0], PIDS[3]], "c2": [PIDS[1]], "c3": [PIDS[2]], "c4": ["tagged"] + file_pids}
+    lists = {"c1": ["urn:node:" + PIDS[0], PIDS[0], PIDS[3]], "c2": [PIDS[1]], "c3": [PIDS[2]], "c4": ["tagged"] + file_pids}
     for c, pids in lists.items():
         want[lay.cid_ref_path(cid[c])] = "".join(p + "\n" for p in pids).encode("utf-8")
     got = {r: b for r, b in snapshot(root).items() if b is not None}
